@@ -6,7 +6,7 @@ exit 0: every query UNSAT within its stated bounds, every reachability witness r
 exit 1: `VIOLATION property=<id> replay=<path>` - an assertion or safety check fails on /repo's current tree.
 exit 2: machinery problem: build error, unreachable witness, loop bound exceeded, all back ends inconclusive.
 """
-import argparse, json, os, shutil, sys, time
+import argparse, json, os, re, shutil, sys, time
 from concurrent.futures import ThreadPoolExecutor
 
 sys.path.insert(0, os.path.join(os.path.dirname(os.path.abspath(__file__)), "lib"))
@@ -53,7 +53,7 @@ def main():
     try:
         with ThreadPoolExecutor(max_workers=vlib.NCPU) as ex:
             results = list(ex.map(lambda q: vlib.run_query(q, workdir), queries))
-        violations = []; known_hits = {}; problems = []
+        violations = []; known_hits = {}; problems = []; others = []
         for r in results:
             q = r.q
             line = "[%s] %-34s %-12s backend=%-8s props=%d ok=%d fail=%d unwind_fail=%d wall=%.1fs solver=%s rss=%sMB" % (
@@ -72,6 +72,14 @@ def main():
                     problems.append("%s: loop bound exceeded (%s %s) - bound too small for current code" % (
                         q.name, p.get("property"), p.get("description")))
             for p in r.failed:
+                kind, label = vlib.classify_prop(p)
+                m = re.match(r"^(C\d\d(?:,C\d\d)*):", label)
+                if kind == "assert" and m and pid not in m.group(1).split(","):
+                    others.append("%s: %s" % (q.name, label))      # belongs to another property's check
+                    continue
+                if kind == "safety" and pid not in q.safety_for:
+                    others.append("%s: %s" % (q.name, label))
+                    continue
                 key = vlib.prop_key(q.name, p)
                 hit = None
                 for k in known:
@@ -126,6 +134,8 @@ def main():
                 elif n == 4:
                     print("  (further failing conditions of %s are recorded under %s)" % (r.q.name, rdir_base), flush=True)
             rc = 1
+        if others:
+            print("[%s] note: %d failing condition(s) labelled for other properties were ignored here (their own checks report them), e.g. %s" % (pid, len(others), others[0][:160]))
         if problems:
             for pr in problems:
                 print("PROBLEM: " + pr, flush=True)
